@@ -131,6 +131,9 @@ func main() {
 				} else {
 					src = rewriteAccess(p, f)
 				}
+				if src == nil {
+					continue
+				}
 				dst := filepath.Join(*out, rel, filepath.Base(name))
 				if err := os.MkdirAll(filepath.Dir(dst), 0o755); err != nil {
 					die("%v", err)
